@@ -8,8 +8,8 @@ EXTENDS Struct, Json, SequencesExt
 CONSTANTS MaxFields, Pairs   \* Pairs: emit two-field shapes too
 
 GoTypes == {"string", "*int", "[]uint8", "bool", "float64", "[]string", "*[]string", "time.Time", "*uint64",
-            "named-int", "*named-string", "named-strings"}   \* user-defined types whose underlying type is supported
-JsonTags == {"a", "b", "", "id"}
+            "named-int", "*named-string", "named-strings", "*[]uint8", "*time.Time", "*bool", "*string"}   \* user-defined types whose underlying type is supported
+JsonTags == {"a", "b", "", "id", "~"}   \* "~": json:"" (the key is there, the name is empty)
 ApiTags == {"", "attr", "rel", "rel,", "rel,tt", "rel,tt,inv", "rel,a,b,c", "other", "rel,,inv"}
 IdVariants == {"ok", "noapi", "absent", "int", "jsonother", "nojson"}
 F(g, j, a) == [gotype |-> g, json |-> j, api |-> a]
